@@ -2344,9 +2344,10 @@ where
         let before = inp.save().clone();
         match self.parser_a.go::<M>(inp) {
             Ok(out) => {
-                // A succeeded -- go back to the beginning and try B
+                // A succeeded -- go back to the beginning and try B (keeping any errors A emitted, since A's output is
+                // kept too)
                 let after = inp.save();
-                inp.rewind(before);
+                inp.rewind_input(before);
 
                 match self.parser_b.go::<Check>(inp) {
                     Ok(()) => {
@@ -2663,7 +2664,8 @@ where
         let before = inp.save();
         match self.parser.go::<M>(inp) {
             Ok(out) => {
-                inp.rewind(before);
+                // Only the position is rewound: errors emitted by the parser belong to the output we keep
+                inp.rewind_input(before);
                 Ok(out)
             }
             Err(()) => Err(()),
